@@ -24,7 +24,7 @@ Definition expand_shape : list byte := list_byte_of_string
 
 (* (TestScript).doCmdCmp — modelled by do_cmd_cmp (UpdateScripts off) *)
 Definition cmp_shape : list byte := list_byte_of_string
-  "name1,name2:=args[0],args[1];if(name1==name2){ts.Fatalf(S);}text1:=ts.ReadFile(name1);absName2:=ts.MkAbs(name2);data,err:=os.ReadFile(absName2);ts.Check(err);text2:=string(data);if(env){text2=ts.expand(text2);}eq:=text1==text2;if(neg){if(eq){ts.Fatalf(S,name1,name2);}return ;}if(eq){return ;}if(ts.params.UpdateScripts&&!env){if(scriptFile,ok:=ts.scriptFiles[absName2];ok){ts.scriptUpdates[scriptFile]=text1;return ;}}unifiedDiff:=diff.Diff(name1,[]byte(text1),name2,[]byte(text2));ts.Logf(S,unifiedDiff);ts.Fatalf(S,name1,name2);".
+  "name1,name2:=args[0],args[1];if(name1==name2){ts.Fatalf(S);}text1:=ts.ReadFile(name1);absName2:=ts.MkAbs(name2);data,err:=os.ReadFile(absName2);ts.Check(err);text2:=string(data);if(env){text2=ts.expand(text2);}eq:=text1==text2;if(neg){if(eq){ts.Fatalf(S,name1,name2);}return ;}if(eq){return ;}if(ts.params.UpdateScripts&&!env){if(scriptFile,ok:=ts.scriptFiles[filepath.Clean(absName2)];ok){ts.scriptUpdates[scriptFile]=text1;return ;}}unifiedDiff:=diff.Diff(name1,[]byte(text1),name2,[]byte(text2));ts.Logf(S,unifiedDiff);ts.Fatalf(S,name1,name2);".
 
 (* ---- the script level (TsParse/TsScript.v)
 
